@@ -22,3 +22,8 @@ pub(crate) fn peers_of(s: &SignedPeersStore, info_hash: &Id) -> usize {
         None => 0,
     }
 }
+
+/// (capacity for info hashes, capacity per info hash)
+pub(crate) fn caps(s: &SignedPeersStore) -> (usize, usize) {
+    (s.info_hashes.cap().get(), s.max_peers.get())
+}
